@@ -815,7 +815,7 @@ def run(ck: Check) -> None:
     campaign_model(ck, 40 if quick else 400)
     campaign_focused(ck)
     campaign_random(ck, 70 if quick else 900)
-    campaign_family(ck, 16 if quick else 130, 12 if quick else 100)
+    campaign_family(ck, 14 if quick else 130, 10 if quick else 100)
     ck.search_hooks.append(search)
     known_findings(ck)
 
